@@ -23,7 +23,7 @@ CHECKS = {
     "C05": ("other", "contract of _reduce against the assumed reduceat contract + wrapper dispatch + bounded numpy-per-row stand-in",
             "Proved for all row-length vectors: _reduce (trailing-empty-row trimming, reduceat index bounds, identity for empty rows, keepdims, axis=None) for representatives add / maximum / logical_and with the fold uninterpreted; the reduction wrapper and named reductions' dispatch; argmax / argmin (_arg_extremum: first column equal to the row extremum, 0 for rows without one; np.unique and nonzero contracts). mean and the dtype matrix are bounded.", "0, 11/C05"),
     "C06": ("other", "contracts over the abstract rows for view receivers + materialisation frame + bounded derived-vs-fresh comparison",
-            "Proved: row subset of views, column-step compounding, integer column on strided views, materialisation (rows preserved, fresh buffer, source not written), lazy __getitem__ dispatch; the mechanised compositions of C02 / C03 (a 2-D slice selection read back cell by cell, and written through, equals list indexing). Representation independence under every probe (a newly derived array vs a fresh one) is bounded.", "0, 11/C06"),
+            "Proved: row subset of views, column-step compounding, integer column on strided views, materialisation (rows preserved, fresh buffer, source not written), lazy __getitem__ dispatch; the mechanised compositions of C02 / C03 (a 2-D slice selection read back cell by cell, and written through, equals list indexing), also for receivers that are themselves lazy row or column selections (column steps compound). Representation independence under every probe (a newly derived array vs a fresh one) is bounded.", "0, 11/C06"),
     "C07": ("other", "contracts (prefix-sum telescoping, shifted-prefix-sum lemma) + bounded numpy-per-row stand-in",
             "Proved: cumsum and add/subtract/xor accumulate restart at every row (integer data as mathematical integers / 64-bit words), diff plumbing (row r keeps max(L-n,0) differences of its own cells), index_array for sort. sort, unique, diff values end to end are bounded. One known finding (float accumulate).", "0, 11/C07"),
     "C08": ("other", "contracts on structural functions + bounded stand-in",
